@@ -1149,6 +1149,15 @@ func (w *worker) runCombine(ctx context.Context, task *Task, taskStats *stats.Ma
 		taskRecordsOut = taskStats.Int("write")
 		recordsOut     = w.stats.Int("write")
 	)
+	// combineShared combines f into c, the shared combiner of partition p
+	// taken from its channel, and returns c to the channel. The send is
+	// deferred so that c is returned even when the user's combine function
+	// panics; otherwise the next taker (including writeCombiner, which holds
+	// w.mu) would block forever.
+	combineShared := func(p int, c *combiner, f frame.Frame) error {
+		defer func() { combiners[p] <- c }()
+		return c.Combine(ctx, f)
+	}
 	// Now perform the partition-combine operation. We maintain a
 	// per-task combine buffer for each partition. When this buffer
 	// reaches half of its capacity, we attempt to combine up to 3/4ths
@@ -1193,9 +1202,7 @@ func (w *worker) runCombine(ctx context.Context, task *Task, taskStats *stats.Ma
 			}
 
 			flushed := pcomb.Compact()
-			combErr := combiner.Combine(ctx, flushed)
-			combiners[p] <- combiner
-			if combErr != nil {
+			if combErr := combineShared(p, combiner, flushed); combErr != nil {
 				return combErr
 			}
 		}
@@ -1208,9 +1215,7 @@ func (w *worker) runCombine(ctx context.Context, task *Task, taskStats *stats.Ma
 	// Flush the remainder.
 	for p, comb := range partitionCombiner {
 		combiner := <-combiners[p]
-		err := combiner.Combine(ctx, comb.Compact())
-		combiners[p] <- combiner
-		if err != nil {
+		if err := combineShared(p, combiner, comb.Compact()); err != nil {
 			return err
 		}
 	}
